@@ -7,8 +7,11 @@ COQ = os.path.join(VERIF, "coq")
 CHECKER = os.path.join(VERIF, "checker")
 HARNESS = os.path.join(VERIF, "harness")
 CACHE = os.path.join(VERIF, ".cache")
-EVID = os.path.join(VERIF, "evidence")
-REPLAYS = os.path.join(VERIF, "replays")
+# VERIF_OUT_DIR: mutation-testing aid (bin/seedtest): evidence and replays of runs against a patched worktree go
+# elsewhere, so that /verif/evidence always describes runs against /repo itself
+_OUT = os.environ.get("VERIF_OUT_DIR") or VERIF
+EVID = os.path.join(_OUT, "evidence")
+REPLAYS = os.path.join(_OUT, "replays")
 
 GOENV = dict(os.environ, GOFLAGS="-mod=mod", GOPROXY="off", GOSUMDB="off", GOTOOLCHAIN="local", CGO_ENABLED="1")
 
@@ -158,6 +161,10 @@ def build_checker(timeout=1200):
     if open(os.path.join(CHECKER, "dune")).read() != dune:
         open(os.path.join(CHECKER, "dune"), "w").write(dune)
     rc, out2 = sh(["dune", "build", "--root", ".", "./main.exe"], cwd=CHECKER, timeout=timeout)
+    if rc == 0:
+        # dune does not touch main.exe when the extracted code is unchanged: staleness is judged against a stamp
+        os.makedirs(CACHE, exist_ok=True)
+        open(os.path.join(CACHE, "checker.stamp"), "w").write(str(time.time()))
     return rc == 0, out + out2
 
 def checker_exe():
@@ -167,7 +174,8 @@ def checker_stale():
     exe = checker_exe()
     if not os.path.exists(exe):
         return True
-    t = os.path.getmtime(exe)
+    stamp = os.path.join(CACHE, "checker.stamp")
+    t = max(os.path.getmtime(exe), os.path.getmtime(stamp) if os.path.exists(stamp) else 0)
     deps = [os.path.join(COQ, l.strip()) for l in open(os.path.join(COQ, "FILES")) if l.startswith("Model/")] + \
            [os.path.join(COQ, "Extract", "Extract.v"), os.path.join(CHECKER, "dune")] + glob.glob(os.path.join(CHECKER, "*.ml"))
     return any(os.path.getmtime(d) > t for d in deps)
